@@ -246,6 +246,12 @@ def marks(system: Any) -> Dict[str, List[str]]:
                             nm = full_[len(srcmod.fullName()) + 1:]
                         else:
                             break
+                    if not isinstance(target, model.Class):
+                        # the object was moved more than once (re-exported under an alias and under its own name): the name left behind
+                        # in the source module leads to a name left behind in the re-exporter; follow them all
+                        from vf.mon import repairs
+                        full_ = repairs._follow_aliases(system, f'{srcmod.fullName()}.{n0}')
+                        target = system.allobjects.get(full_) if full_ else None
                     if isinstance(target, model.Class):
                         hit = True
                 if hit:
